@@ -15,11 +15,11 @@ theorem stepR_mark (k : Consts) (m : List String) (x : List String) (s : State) 
   unfold stepR
   by_cases h : r.isConn
   · simp only [h, if_true]
-    show (match stepC m s.p s.c r with | .error e => _ | .ok c' => _) = _
-    cases stepC m s.p s.c r <;> rfl
+    show (match stepC k m s.p s.c r with | .error e => _ | .ok c' => _) = _
+    cases stepC k m s.p s.c r <;> rfl
   · simp only [h]
-    show (match stepP k m s.c s.p r with | .error e => _ | .ok (p', ws) => _) = _
-    cases hP : stepP k m s.c s.p r with
+    show (match stepP k m (emp s.c) s.p r with | .error e => _ | .ok (p', ws) => _) = _
+    cases hP : stepP k m (emp s.c) s.p r with
     | error e => rfl
     | ok v => cases v; rfl
 
@@ -63,6 +63,8 @@ theorem runFrom_setMark (k : Consts) (x : List String) (s : State) (bs : List (L
   | cons b r => simp only [runFrom, stepBlock_setMark]
 
 theorem endReport_setMark (x : List String) (s : State) : endReport (setMark x s) = setMark x (endReport s) := rfl
+
+theorem closeBlock_setMark (x : List String) (s : State) : closeBlock (setMark x s) = setMark x (closeBlock s) := rfl
 
 /-! ### the keyword loop over a concatenation -/
 
@@ -126,54 +128,25 @@ theorem substBody_plain (ws : List String) (body : List CKw) (hp : body.all plai
     | actionx a => simp [plainKw] at hp
     | endactio => simp [plainKw] at hp
 
-/-! ### one application at the level of state n -/
-
-/-- State-level core of `apply_eq_inline`: if block n's own keywords lead from `s0` to `s1`
-and `end_report` had nothing to shut (`endReport s1 = s1`), then running the substituted body
-on the stored snapshot and closing the step again gives — up to the marker — the state the
-block with the body appended produces. -/
-theorem applyAtState_eq_inline (k : Consts) (s0 s1 : State) (blk body : List CKw) (W : List String) (sn' : State)
-    (h1 : runKws k none s0 blk = .ok s1) (hno : endReport s1 = s1) (hp : body.all plainKw = true)
-    (ha : applyAtState k (endReport s1) body W = .ok sn') :
-    ∃ t, runKws k none s0 (blk ++ substBody (sortW (names s1.p.wells) W) body) = .ok t ∧
-         endReport t = setMark s1.mark sn' := by
-  rw [hno] at ha
-  unfold applyAtState at ha
-  simp only [] at ha
-  split at ha
-  · cases ha
-  · cases hb : runBody k s1 (substBody (sortW (names s1.p.wells) W) body) with
-    | error e => rw [hb] at ha; cases ha
-    | ok t =>
-      rw [hb] at ha
-      simp only [Except.ok.injEq] at ha
-      refine ⟨t, ?_, ?_⟩
-      · rw [runKws_append k blk _ none s0 s1 h1, runKws_plain k s1 _ (substBody_plain _ body hp), hb]
-      · subst ha
-        -- the handlers never touch the marker channel: t.mark = s1.mark
-        have hm : ∀ (b : List CKw) (u v : State), runBody k u b = .ok v → v.mark = u.mark := by
-          intro b
-          induction b with
-          | nil => intro u v h; simp only [runBody, Except.ok.injEq] at h; subst h; rfl
-          | cons kw r ih =>
-            intro u v h
-            simp only [runBody] at h
-            cases hh : handle k [] u kw with
-            | error e => rw [hh] at h; cases h
-            | ok u' =>
-              rw [hh] at h; simp only [] at h
-              have e1 := ih u' v h
-              have e2 : u'.mark = u.mark := by
-                have := handle_mark k [] u.mark u kw
-                have hu : setMark u.mark u = u := rfl
-                rw [hu, hh] at this
-                simp only [Except.map, Except.ok.injEq] at this
-                have := congrArg State.mark this
-                simpa [setMark] using this
-              rw [e1, e2]
-        have := hm _ _ _ hb
-        simp only [setMark, endReport]
-        rw [← this]
+/-- The handlers never touch the marker channel. -/
+theorem runBody_mark_eq (k : Consts) (b : List CKw) (u v : State) (h : runBody k u b = .ok v) : v.mark = u.mark := by
+  induction b generalizing u with
+  | nil => simp only [runBody, Except.ok.injEq] at h; subst h; rfl
+  | cons kw r ih =>
+    simp only [runBody] at h
+    cases hh : handle k [] u kw with
+    | error e => rw [hh] at h; cases h
+    | ok u' =>
+      rw [hh] at h; simp only [] at h
+      have e1 := ih u' h
+      have e2 : u'.mark = u.mark := by
+        have := handle_mark k [] u.mark u kw
+        have hu : setMark u.mark u = u := rfl
+        rw [hu, hh] at this
+        simp only [Except.map, Except.ok.injEq] at this
+        have := congrArg State.mark this
+        simpa [setMark] using this
+      rw [e1, e2]
 
 end OpmVerif.Sched
 
@@ -233,45 +206,6 @@ theorem applyAction_length (k : Consts) (bs : List (List CKw)) (ss : List State)
         have := runFrom_length h2
         simp only [List.length_append, List.length_take, List.length_cons, this, List.length_drop]
         omega
-
-/-- Whole-schedule form of `apply_eq_inline` (partial: under `endReport s1 = s1`). -/
-theorem applyAction_eq_inline (k : Consts) (a : List (List CKw)) (blk : List CKw) (c : List (List CKw))
-    (sa : List State) (s1 : State) (tail0 : List State) (body : List CKw) (W : List String)
-    (bs' : List (List CKw)) (ss' : List State)
-    (ha : runFrom k (init k) a = .ok sa)
-    (h1 : runKws k none (createNext (sa.getLastD (init k))) blk = .ok s1)
-    (hno : endReport s1 = s1) (hp : body.all plainKw = true)
-    (happ : applyAction k (a ++ blk :: c) (sa ++ endReport s1 :: tail0) a.length body W = .ok (bs', ss')) :
-    ∃ sn' tail, ss' = sa ++ sn' :: tail ∧
-      run k (a ++ (blk ++ substBody (sortW (names s1.p.wells) W) body) :: c) = .ok (sa ++ setMark s1.mark sn' :: tail) := by
-  have hlen : sa.length = a.length := runFrom_length ha
-  unfold applyAction at happ
-  have hidx : (sa ++ endReport s1 :: tail0)[a.length]? = some (endReport s1) := by
-    rw [← hlen]; simp
-  rw [hidx] at happ; simp only [] at happ
-  cases hA : applyAtState k (endReport s1) body W with
-  | error e => rw [hA] at happ; cases happ
-  | ok sn' =>
-    rw [hA] at happ; simp only [] at happ
-    have hdrop : (a ++ blk :: c).drop (a.length + 1) = c := by simp
-    rw [hdrop] at happ
-    cases hT : runFrom k sn' c with
-    | error e => rw [hT] at happ; cases happ
-    | ok tail =>
-      rw [hT] at happ
-      simp only [Except.ok.injEq, Prod.mk.injEq] at happ
-      obtain ⟨_, hss⟩ := happ
-      have htake : (sa ++ endReport s1 :: tail0).take a.length = sa := by rw [← hlen]; simp
-      rw [htake] at hss
-      refine ⟨sn', tail, hss.symm, ?_⟩
-      obtain ⟨t, ht, hte⟩ := applyAtState_eq_inline k _ s1 blk body W sn' h1 hno hp hA
-      unfold run
-      rw [runFrom_append ha]
-      simp only [runFrom, stepBlock, ht, hte, runFrom_setMark, hT]
-
-end OpmVerif.Sched
-
-namespace OpmVerif.Sched
 
 theorem applyAction_blocks (k : Consts) (bs : List (List CKw)) (ss : List State) (n : Nat) (body : List CKw)
     (W : List String) (bs' : List (List CKw)) (ss' : List State)
